@@ -47,6 +47,93 @@ Proof.
   - apply Whole in H. destruct H as [I' [-> ->]]. split; [assumption|]. ssimpl. repeat split. left. repeat split.
 Qed.
 
+(* ---- lockup BeginUnlock, BeginUnlockAllNotUnlockings, ForceUnlock ---- *)
+Lemma begin_unlock_spec : forall st id amt st' n, begin_unlock st id amt = Ok (st', n) ->
+  exists l, s_locks st id = Some l /\ s_synths st id = [] /\ begin_unlock_core st id l amt = Ok (st', n).
+Proof.
+  intros st id amt st' n H. unfold begin_unlock in H. destruct (s_locks st id) as [l|]; [|discriminate].
+  destruct (s_synths st id); [|discriminate]. cbn [negb] in H. exists l. auto.
+Qed.
+
+Lemma begin_unlock_linv : forall cfg st id amt st' nid,
+  linv cfg st -> (forall x, amt = Some x -> 0 < x) -> begin_unlock st id amt = Ok (st', nid) ->
+  exists l, s_locks st id = Some l /\ s_conn st id = None /\ s_synths st id = [] /\
+  linv cfg st' /\ s_now st' = s_now st /\ s_synths st' = s_synths st /\ s_conn st' = s_conn st /\ s_accs st' = s_accs st /\
+  s_mult st' = s_mult st /\ s_deleg st' = s_deleg st /\ s_vals st' = s_vals st /\ s_supply st' = s_supply st /\
+  s_offset st' = s_offset st /\ s_bonded st' = s_bonded st /\ s_accum st' = s_accum st /\
+  ((nid = id /\ s_last st' = s_last st /\
+    s_locks st' = upd1 (s_locks st) id (Some (mkLock (l_owner l) (l_denom l) (l_amt l) (l_dur l) (s_now st + l_dur l)))) \/
+   (exists x, amt = Some x /\ x < l_amt l /\ nid = s_last st + 1 /\ s_last st' = s_last st + 1 /\ l_end l = 0 /\
+    s_locks st' = upd1 (upd1 (s_locks st) id (Some (mkLock (l_owner l) (l_denom l) (l_amt l - x) (l_dur l) 0)))
+                       (s_last st + 1) (Some (mkLock (l_owner l) (l_denom l) x (l_dur l) (s_now st + l_dur l))))).
+Proof.
+  intros cfg st id amt st' nid I Hpos H. apply begin_unlock_spec in H. destruct H as [l [Hl [Hs H]]].
+  pose proof (L_marker _ _ I id) as M. unfold marker in M. rewrite Hs in M.
+  exists l. split; [assumption|]. split; [assumption|]. split; [assumption|].
+  apply (begin_unlock_core_linv cfg st id l amt st' nid I Hl M Hpos H).
+Qed.
+
+Lemma begin_unlock_all_linv : forall cfg owner ids st st', linv cfg st -> begin_unlock_all st owner ids = Ok st' ->
+  linv cfg st' /\ s_conn st' = s_conn st /\ s_accs st' = s_accs st /\ s_mult st' = s_mult st /\ s_deleg st' = s_deleg st /\
+  s_vals st' = s_vals st /\ s_supply st' = s_supply st /\ s_offset st' = s_offset st /\ s_last st' = s_last st /\
+  s_synths st' = s_synths st /\ s_now st' = s_now st /\
+  (forall id, s_conn st id <> None -> s_locks st' id = s_locks st id).
+Proof.
+  intros cfg owner. induction ids as [|id r IH]; intros st st' I H; cbn [begin_unlock_all] in H.
+  - injection H as <-. split; [assumption|]. repeat split; reflexivity.
+  - destruct (s_locks st id) as [l|] eqn:Hl; [|apply IH; assumption].
+    destruct ((l_owner l =? owner) && (l_end l =? 0)); [|apply IH; assumption].
+    unfold bind in H. destruct (begin_unlock st id None) as [[st1 n1]|] eqn:E; [|discriminate]. cbn [fst] in H.
+    apply (begin_unlock_linv cfg) in E; [|assumption|discriminate].
+    destruct E as [l0 [_ [Hc [_ [I1 [N1 [S1 [C1 [A1 [M1 [D1 [V1 [Su1 [Of1 [_ [_ Cases]]]]]]]]]]]]]]]].
+    destruct Cases as [[_ [T1 K1]]|[x [Ex _]]]; [|discriminate].
+    apply IH in H; [|assumption]. destruct H as [I' [C' [A' [M' [D' [V' [Su' [Of' [T' [S' [N' K']]]]]]]]]]].
+    split; [assumption|]. repeat split; try congruence.
+    intros id0 Hn. rewrite K' by (rewrite C1; assumption). rewrite K1. apply upd1_other. intros ->. contradiction.
+Qed.
+
+Lemma begin_unlock_all_refuses : forall owner ids st id l, In id ids -> s_locks st id = Some l -> l_owner l = owner ->
+  l_end l = 0 -> s_synths st id <> [] -> exists e, begin_unlock_all st owner ids = Err e.
+Proof.
+  intros owner. induction ids as [|id0 r IH]; intros st id l Hin Hl Ho He Hs; [contradiction|]. cbn [begin_unlock_all].
+  destruct (Z.eq_dec id0 id) as [->|N].
+  - rewrite Hl, Ho, He, !Z.eqb_refl. cbn [andb]. unfold bind, begin_unlock. rewrite Hl.
+    destruct (s_synths st id); [contradiction|]. cbn. eexists; reflexivity.
+  - destruct Hin as [E|Hin]; [contradiction|].
+    destruct (s_locks st id0) as [l0|] eqn:Hl0; [|eapply IH; eassumption].
+    destruct ((l_owner l0 =? owner) && (l_end l0 =? 0)); [|eapply IH; eassumption].
+    unfold bind. destruct (begin_unlock st id0 None) as [[st1 n1]|e] eqn:E; [|eexists; reflexivity]. cbn [fst].
+    apply begin_unlock_spec in E. destruct E as [l1 [_ [_ E]]]. unfold begin_unlock_core in E.
+    destruct (negb (l_end l1 =? 0)); [discriminate|]. cbn in E. injection E as <- _.
+    apply (IH _ id l); ssimpl; try assumption. rewrite upd1_other by (intros X; apply N; congruence). assumption.
+Qed.
+
+Lemma force_unlock_linv : forall cfg st sender id st', linv cfg st -> force_unlock cfg st sender id = Ok st' ->
+  linv cfg st' /\ s_conn st id = None /\ s_synths st id = [] /\
+  s_conn st' = s_conn st /\ s_accs st' = s_accs st /\ s_mult st' = s_mult st /\ s_deleg st' = s_deleg st /\
+  s_vals st' = s_vals st /\ s_supply st' = s_supply st /\ s_offset st' = s_offset st /\ s_last st' = s_last st /\
+  (forall id0, id0 <> id -> s_locks st' id0 = s_locks st id0).
+Proof.
+  intros cfg st sender id st' I H. unfold force_unlock in H.
+  destruct (s_locks st id) as [l|] eqn:Hl; [|discriminate].
+  destruct (negb (l_owner l =? sender)); [discriminate|]. destruct (negb (existsb (Z.eqb sender) (c_force cfg))); [discriminate|].
+  unfold bind in H. destruct (synth_by_lock_spec cfg st id _ I eq_refl) as [[Hs Er]|[y [Hs Er]]]; rewrite Er in H; [|discriminate].
+  pose proof (L_marker _ _ I id) as M. unfold marker in M. rewrite Hs in M.
+  destruct (Z.eqb_spec (l_end l) 0) as [He|Ne].
+  - destruct (begin_unlock st id None) as [[st1 n1]|] eqn:E; [|discriminate]. cbn [fst] in H. injection H as <-.
+    apply (begin_unlock_linv cfg) in E; [|assumption|discriminate].
+    destruct E as [l0 [Hl0 [_ [_ [I1 [N1 [S1 [C1 [A1 [M1 [D1 [V1 [Su1 [Of1 [_ [_ Cases]]]]]]]]]]]]]]]].
+    rewrite Hl in Hl0. injection Hl0 as <-.
+    destruct Cases as [[_ [T1 K1]]|[x [Ex _]]]; [|discriminate].
+    pose proof (L_now _ _ I) as Hn. pose proof (L_lock_wf _ _ I _ _ Hl) as [_ [Wd _]].
+    split.
+    + apply (del_lock_linv cfg st1 id (mkLock (l_owner l) (l_denom l) (l_amt l) (l_dur l) (s_now st + l_dur l))); [assumption| |cbn; lia].
+      rewrite K1, upd1_same. reflexivity.
+    + ssimpl. repeat split; try congruence. intros id0 N. rewrite upd1_other by assumption. rewrite K1. apply upd1_other. assumption.
+  - injection H as <-. split; [apply (del_lock_linv cfg st id l); assumption|].
+    ssimpl. repeat split; try congruence. intros id0 N. apply upd1_other. assumption.
+Qed.
+
 (* ---- SuperfluidDelegate ---- *)
 Lemma superfluid_delegate_linv : forall cfg st sender id v st',
   linv cfg st -> superfluid_delegate cfg st sender id v = Ok st' ->
@@ -296,10 +383,20 @@ Proof.
   - (* OBeginUnlock *)
     destruct (s_locks st id) as [l|] eqn:Hl; [|discriminate].
     destruct (Z.eqb_spec (l_owner l) sender); [|discriminate]. cbn [negb] in H.
-    destruct (s_synths st id) as [|y r] eqn:Hs; [|discriminate]. cbn [negb] in H.
-    destruct (begin_unlock_core st id l None) as [[s n]|] eqn:E; [|discriminate]. injection H as <- _. cbn [fst].
-    pose proof (L_marker _ _ I id) as M. unfold marker in M. rewrite Hs in M.
-    apply (begin_unlock_core_linv cfg) in E; try assumption; [tauto|discriminate].
+    destruct (begin_unlock st id None) as [[s n]|] eqn:E; [|discriminate]. injection H as <- _. cbn [fst].
+    apply (begin_unlock_linv cfg) in E; [|assumption|discriminate]. destruct E as [l0 [_ [_ [_ [I' _]]]]]. assumption.
+  - (* OBeginUnlockPartial *)
+    destruct (s_locks st id) as [l|] eqn:Hl; [|discriminate].
+    destruct (Z.eqb_spec (l_owner l) sender); [|discriminate]. cbn [negb] in H.
+    destruct (Z.leb_spec amt 0); [discriminate|].
+    apply (begin_unlock_linv cfg) in H; [|assumption|intros x Ex; injection Ex as <-; assumption].
+    destruct H as [l0 [_ [_ [_ [I' _]]]]]. assumption.
+  - (* OBeginUnlockAll *)
+    destruct (begin_unlock_all st owner (ids_upto (s_last st))) as [s|] eqn:E; [|discriminate]. injection H as <- _.
+    apply (begin_unlock_all_linv cfg) in E; [tauto|assumption].
+  - (* OForceUnlock *)
+    destruct (force_unlock cfg st sender id) as [s|] eqn:E; [|discriminate]. injection H as <- _.
+    apply (force_unlock_linv cfg) in E; [tauto|assumption].
   - (* OWithdraw *)
     unfold unlock_matured_lock in H. destruct (s_locks st id) as [l|] eqn:Hl; [|discriminate].
     destruct (Z.eqb_spec (l_end l) 0); [discriminate|]. destruct (s_now st <? l_end l); [discriminate|].
